@@ -50,7 +50,7 @@ func main() {
 		seed, _ := strconv.ParseUint(os.Args[4], 10, 64)
 		exe, _ := os.Executable()
 		pc := &mon.ParentCtx{
-			Tier: os.Args[3], Seed: seed, Scratch: os.Getenv("VMON_SCRATCH"), VerifDir: os.Getenv("VERIF_DIR"),
+			Tier: os.Args[3], Seed: seed, Scratch: os.Getenv("VMON_SCRATCH"), VerifDir: os.Getenv("VERIF_DIR"), OutDir: os.Getenv("VERIF_OUT_DIR"),
 			Exe: exe, Start: time.Now(),
 		}
 
